@@ -325,6 +325,8 @@ class TypedNode(Node):
             self._children = [node]
         elif before is True:  # prepend
             children.insert(0, node)
+        elif before is False:  # append (note: `False` is an `int` as well)
+            children.append(node)
         elif isinstance(before, int):
             children.insert(before, node)
         elif before:
